@@ -99,7 +99,7 @@ def process_paths(facts):
             if not t:
                 continue
             m = re.search(r'["\'](#[a-z]+)["\']', a)
-            if m and ("starts_with" in a or " is " in a) and m.group(1) != "#":
+            if m and ("starts_with" in a or " is " in a or "==" in a) and m.group(1) != "#":
                 directive = m.group(1)
         if directive is None:
             hash_atoms = [(a, t) for a, t in st.atoms.items() if 'starts_with(\'#\')' in a or "starts_with('#')" in a or 'starts_with("#")' in a]
